@@ -32,6 +32,9 @@ def _alarm(sig, frm):
     raise Timeout()
 
 
+TIMEOUTS = [0]       # calls of the implementation that did not return within their alarm (the runner stops after a few)
+
+
 def guarded(f, *a, secs=30, **k):
     """run f; return ('ok', value) or ('exc', name, message)"""
     signal.signal(signal.SIGALRM, _alarm)
@@ -39,7 +42,8 @@ def guarded(f, *a, secs=30, **k):
     try:
         return ("ok", f(*a, **k))
     except Timeout:
-        return ("exc", "Timeout", "")
+        TIMEOUTS[0] += 1
+        return ("exc", "Timeout", f"no result within {secs} s")
     except Exception as e:  # noqa
         return ("exc", exn_name(e), str(e)[:200])
     finally:
